@@ -263,10 +263,130 @@ pub fn run(tier: &str) -> i32 {
     } else {
         run_hist(&def(), tier, &mut rep);
     }
+    let (lv, ln) = large_file_probe();
+    rep.add_violations(lv);
+    rep.cov("large_file_probe_seeks", json!(ln));
     rep.cov("bounds", json!({
         "files_open": 3, "volumes": 2,
         "depth": if tier == "quick" { "4 (raw), 3 (embedded-io)" } else { "5 all front ends, 6 reduced alphabet" },
         "geometry_sweep": "blocks/cluster x FAT type x FAT copies x partition offset x slot",
     }));
     rep.finish()
+}
+
+// ---------------------------------------------------------------------------
+// Large-offset probe: a formatter-made file of 2^31 + 70 000 bytes on 128-block clusters (read/seek only);
+// contents are defined by the disk's filler, the chain is fragmented once in the middle.
+// ---------------------------------------------------------------------------
+
+pub fn large_file_probe() -> (Vec<Violation>, u64) {
+    use crate::mkfs::{FsInfo, Mk};
+    use crate::simdisk::{Clock, Image, Rd, SimDisk};
+    use embedded_sdmmc::{Mode, VolumeIdx, VolumeManager};
+    let mut out = Vec::new();
+    let mut g = scen::g_v32a();
+    g.spc = 128;
+    g.clusters = 70_000;
+    g.lba_start = 0x0010_0001;
+    let cb = g.cluster_bytes() as u64;
+    let size: u64 = (1u64 << 31) + 70_000;
+    let nclusters = size.div_ceil(cb) as u32;
+    let mut mk = Mk::new(g.clone());
+    let root = mk.root();
+    // chain: clusters 10.., with one backwards jump in the middle
+    let half = nclusters / 2;
+    let mut chain: Vec<u32> = (0..half).map(|i| 40_000 + i).collect();
+    chain.extend((0..nclusters - half).map(|i| 10 + i));
+    mk.file_nodata(root, "BIG.DAT", 0x20, &chain, size as u32);
+    let base = std::sync::Arc::new(mk.finish(FsInfo::Correct));
+    let img = Image::new(base.clone());
+    let expect = |off: u64, n: usize| -> Vec<u8> {
+        (0..n as u64)
+            .map(|i| {
+                let o = off + i;
+                let c = chain[(o / cb) as usize];
+                let blk = g.cluster_block(c) + ((o % cb) / 512) as u32;
+                base.rd(blk)[(o % 512) as usize]
+            })
+            .collect()
+    };
+    let r = crate::util::catch_quiet(|| -> Result<Vec<(String, String)>, String> {
+        let mut bad = Vec::new();
+        let vm: VolumeManager<SimDisk, Clock, 4, 4, 1> = VolumeManager::new(SimDisk::new(img.clone()), Clock::new());
+        let v = vm.open_raw_volume(VolumeIdx(0)).map_err(|e| format!("{:?}", e))?;
+        let d = vm.open_root_dir(v).map_err(|e| format!("{:?}", e))?;
+        let f = vm.open_file_in_dir(d, "BIG.DAT", Mode::ReadOnly).map_err(|e| format!("{:?}", e))?;
+        if vm.file_length(f).ok() != Some(size as u32) {
+            bad.push(("large-file/length".into(), format!("file_length = {:?}, directory entry says {}", vm.file_length(f).ok(), size)));
+        }
+        let two31 = 1u64 << 31;
+        let targets: [u64; 9] = [two31 - 1, two31, two31 + 1, size - 1, cb * half as u64 - 3, 0, size - 600, two31 - 513, 65_535];
+        for (k, &t) in targets.iter().enumerate() {
+            // alternate the three seek flavours
+            let r = match k % 3 {
+                0 => vm.file_seek_from_start(f, t as u32),
+                1 => vm.file_seek_from_end(f, (size - t) as u32),
+                _ => {
+                    let cur = vm.file_offset(f).unwrap_or(0) as i64;
+                    let mut delta = t as i64 - cur;
+                    let mut r = Ok(());
+                    while delta != 0 && r.is_ok() {
+                        let step = delta.clamp(i32::MIN as i64, i32::MAX as i64);
+                        r = vm.file_seek_from_current(f, step as i32);
+                        delta -= step;
+                    }
+                    r
+                }
+            };
+            if let Err(e) = r {
+                bad.push(("large-file/seek-refused".into(), format!("seek to {} (flavour {}) -> {:?}", t, k % 3, e)));
+                continue;
+            }
+            if vm.file_offset(f).ok() != Some(t as u32) {
+                bad.push(("large-file/offset".into(), format!("after seek to {} the offset is {:?}", t, vm.file_offset(f).ok())));
+                continue;
+            }
+            let n = 700usize.min((size - t) as usize);
+            let mut buf = vec![0u8; 700];
+            match vm.read(f, &mut buf) {
+                Ok(got) => {
+                    if got != n || buf[..n] != expect(t, n)[..] {
+                        bad.push(("large-file/read-data".into(), format!("read of 700 at offset {}: got {} bytes, expected {}; data {}", t, got, n, if got == n { "differs" } else { "n/a" })));
+                    }
+                    let eof = vm.file_eof(f).unwrap_or(false);
+                    if eof != (t + n as u64 == size) {
+                        bad.push(("large-file/eof".into(), format!("file_eof = {} at offset {}", eof, t + n as u64)));
+                    }
+                }
+                Err(e) => bad.push(("large-file/read-error".into(), format!("read at offset {} -> {:?}", t, e))),
+            }
+        }
+        // invalid seeks must be refused
+        if vm.file_seek_from_start(f, size as u32 + 1).is_ok() {
+            bad.push(("large-file/invalid-seek-accepted".into(), "seek_from_start(len + 1) accepted".into()));
+        }
+        vm.file_seek_from_start(f, 0).ok();
+        if vm.file_seek_from_current(f, -1).is_ok() {
+            bad.push(("large-file/invalid-seek-accepted".into(), "seek_from_current(-1) at offset 0 accepted".into()));
+        }
+        Ok(bad)
+    });
+    let mk_v = |sig: String, detail: String| Violation {
+        prop: "C01".into(),
+        sig,
+        detail,
+        scenario: "probe/large-file".into(),
+        hist: vec![],
+        input: None,
+    };
+    match r {
+        crate::util::Caught::Ok(Ok(bad)) => {
+            for (s, d) in bad {
+                out.push(mk_v(s, d));
+            }
+        }
+        crate::util::Caught::Ok(Err(e)) => out.push(mk_v("large-file/cannot-open".into(), e)),
+        crate::util::Caught::Panic(m) => out.push(mk_v("large-file/panic".into(), m)),
+    }
+    (out, 9)
 }
